@@ -35,7 +35,7 @@ func zzHintBitUnpackRef(y []byte) (bool, VecK) {
 //zz: prop=C04 also=C02 tier=quick backend=bv maxpaths=60000
 func ZZ_C04_UnpackHint_vs_FIPS204_mldsa87() { zzUnpackHintCheck(1) }
 
-//zz: prop=C04 tier=thorough backend=bv maxpaths=200000
+//zz: prop=C04 tier=thorough backend=bv maxpaths=200000 budget=3000
 func ZZ_C04_UnpackHint_vs_FIPS204_h2_mldsa87() { zzUnpackHintCheck(2) }
 
 func zzUnpackHintCheck(bound uint8) {
